@@ -14,6 +14,16 @@
 (*   - the variant: unbiasedness row, functional drift rows, one external  *)
 (*     drift row, mean, trend, `exact`, measurement errors;                *)
 (*   - the targets;                                                        *)
+(*   - the units (`lunit`, `vunit`): the kriging equations only contain    *)
+(*     lag / len_scale and ratios of covariances, so a common factor       *)
+(*     2^lunit on all positions and the length scale changes nothing, a    *)
+(*     factor 2^ev on the data (values, mean, trend) multiplies the        *)
+(*     estimate by 2^ev and a factor 2^ec on variance, nugget and          *)
+(*     measurement errors multiplies the kriging variance by 2^ec          *)
+(*     (theorems LengthUnitInvariant, ValueUnitScaling, checked with       *)
+(*     small integer factors).  Powers of two are exact in floating point, *)
+(*     so `out` (computed for unit 1) is the expected result of the        *)
+(*     implementation in every unit after dividing by 2^ev / 2^ec.         *)
 (*   - (used by the histories of KrigeSysHist) a rotation of the main axes *)
 (*     by `quarter` quarter turns and an affine normalizer y = k (x - s),  *)
 (*     `norm` = <<k, s>>, so that field(t) = (mean(t) + sum w z') / k + s  *)
@@ -67,6 +77,8 @@ CONSTANTS
   ErrSpecs,    \* set of [mode, e, pat]: "nugget" | "scalar" (e) | "list" (pat)
   Exacts,      \* subset of BOOLEAN
   Targets,     \* sequence of points
+  LUnit,       \* length unit: positions, targets and len_scale are multiplied by 2^LUnit
+  VUnit,       \* <<ev, ec>>: data (values, mean, trend) times 2^ev; variance, nugget, errors times 2^ec
   MaxFree,     \* bound on (#points - #constraint rows): keeps |det| inside 32 bit
   WithRejected \* also enumerate exact=TRUE with an explicit measurement error
 
@@ -295,7 +307,8 @@ Valid(c) ==
           /\ SysDet(c) # 0
 
 MkCfg(m, v, ps, z, L, vr, ng, ex, er) ==
-  [model |-> m, dim |-> Dim, stretch |-> Stretch, quarter |-> 0, norm |-> <<1, 0>>, len |-> L, var |-> vr, nug |-> ng,
+  [model |-> m, dim |-> Dim, stretch |-> Stretch, quarter |-> 0, norm |-> <<1, 0>>, lunit |-> LUnit, vunit |-> VUnit,
+   len |-> L, var |-> vr, nug |-> ng,
    cls |-> v.cls, unb |-> v.unb, drift |-> v.drift, ext |-> v.ext, mean |-> v.mean, trend |-> v.trend,
    exact |-> ex,
    err |-> [mode |-> er.mode, e |-> er.e,
@@ -406,6 +419,28 @@ TrendActsAsMean ==
   Ok /\ cfg.norm = <<1, 0>> => With(Solve([cfg EXCEPT !.mean = <<cfg.mean[1] + cfg.trend[1], cfg.mean[2] + cfg.trend[2]>>,
                                !.trend = <<0, 0>>]),
              LAMBDA o2 : o2.field = out.field /\ o2.var = out.var)
+
+(* units: a common factor on positions, targets and length scale changes nothing; a factor A on the
+   data multiplies the estimate by A; a factor C on variance, nugget and measurement errors multiplies
+   the kriging variance by C and leaves the estimate alone.  (Small integer factors; the position
+   dependent external drift functions are excluded from the length theorem.) *)
+RatEq(p, q) == p[1] * q[2] = q[1] * p[2]
+ScalePts(ps, U) == [i \in 1..Len(ps) |-> [d \in 1..Len(ps[i]) |-> U * ps[i][d]]]
+SmallDD == DD(cfg) <= 16
+LengthUnitInvariant ==
+  Ok /\ SmallDD /\ cfg.model = "Linear" /\ cfg.ext = "none" => \A U \in {2} :
+     With(Solve(ZeroShift(cfg)), LAMBDA o1 :
+     With(Solve([ZeroShift(cfg) EXCEPT !.pos = ScalePts(cfg.pos, U), !.tgt = ScalePts(cfg.tgt, U), !.len = U * cfg.len]),
+          LAMBDA o2 : \A k \in TIdx : /\ RatEq(o2.field[k], o1.field[k]) /\ RatEq(o2.var[k], o1.var[k])
+                                      /\ RatEq(o2.meanfield[k], o1.meanfield[k])))
+ValueUnitScaling ==
+  Ok /\ SmallDD => \A A \in {2} : \A C \in {1, 2} :
+     With(Solve(ZeroShift(cfg)), LAMBDA o1 :
+     With(Solve([ZeroShift(cfg) EXCEPT !.val = [i \in 1..Len(cfg.val) |-> A * cfg.val[i]],
+                                       !.var = C * cfg.var, !.nug = C * cfg.nug, !.err.e = C * cfg.err.e,
+                                       !.err.pat = [i \in 1..Len(cfg.err.pat) |-> C * cfg.err.pat[i]]]),
+          LAMBDA o2 : \A k \in TIdx : /\ RatEq(o2.field[k], <<A * o1.field[k][1], o1.field[k][2]>>)
+                                      /\ RatEq(o2.var[k], <<C * o1.var[k][1], o1.var[k][2]>>)))
 
 (* the merged solution, expanded with equal weights inside each group of coincident points,
    solves the full singular system; among its solutions (they differ by vectors e_i - e_j of
